@@ -55,6 +55,15 @@ def lattice(seed, quick):
     # the flow's column order must not depend on the interpreter's hash seed
     for p in ({}, {"n_pool": 2}):
         cfgs.append({"kind": "std", "model": "G3a", "seed": seed, "kwargs": {"nlive": 10, "poolsize": 10, "maximum_uninformed": 10, "reparameterisations": {"a": "rescaletobounds"}, **p}, "resume": "none"})
+    # analytic priors, also with vectorisation disabled: the evaluation count must not depend on the pool
+    for extra in ({"analytic_priors": True}, {"analytic_priors": True, "disable_vectorisation": True}, {"disable_vectorisation": True}):
+        for p in ({}, {"n_pool": 2}, {"user_pool": 2}):
+            p = dict(p)
+            up = p.pop("user_pool", None)
+            cfg = {"kind": "std", "model": "G2ramp", "seed": seed, "kwargs": {"nlive": 10, "poolsize": 10, "maximum_uninformed": 10, **extra, **p}, "resume": "none"}
+            if up:
+                cfg["user_pool"] = up
+            cfgs.append(cfg)
     cfgs.append({"kind": "ins", "model": "G3a", "seed": seed, "kwargs": {"max_iteration": 2}, "resume": "none"})
     cfgs.append({"kind": "ins", "model": "G3a", "seed": seed, "kwargs": {"max_iteration": 2, "n_pool": 2}, "resume": "none"})
     return cfgs
